@@ -13,5 +13,5 @@ CONSTANTS
 VIEW view
 CONSTRAINT ObsBound
 INVARIANTS TypeOK DeletedHasNoStorage NotIndexedOnceDeleted ChildrenFollowDone MirrorSound LoggedTombstoned NoOverDelete LiveStored
-PROPERTIES StatusMonotone NoStorageReappears AttemptsFail NeverReAdded ChildrenFollowLate SurvivesRestart DeletedIdsGrowOnly
+PROPERTIES StatusMonotone NoStorageReappears AttemptsFail NeverReAdded ChildrenFollowLate SurvivesRestart DeletedIdsGrowOnly KidsHandled
 CHECK_DEADLOCK FALSE
